@@ -582,6 +582,30 @@ def drift_compare(res, wd, preds, items):
         res.extra["spec_drift_runs"] = res.extra.get("spec_drift_runs", 0) + len(o["drift"])
 
 
+def run_example(example, args, run_timeout=900):
+    """Builds a shipped example from /repo's working tree and runs it. Returns (output, m) where m is the match of its
+    "Done. states=.., unique=.." line or None: an example that panics, hangs or reports nothing is DATA for the judge
+    (the counts are then recorded as -1), only a failing build is a tool error."""
+    import subprocess, re
+    env = dict(os.environ, CARGO_NET_OFFLINE="true")
+    b = subprocess.run(["cargo", "build", "--offline", "--release", "--example", example], cwd="/repo", env=env,
+                       stdout=subprocess.PIPE, stderr=subprocess.STDOUT, text=True, timeout=3000)
+    exe = os.path.join("/repo/target/release/examples", example)
+    if b.returncode != 0 or not os.path.exists(exe):
+        raise ToolError("examples/%s does not build:\n%s" % (example, b.stdout[-2000:]))
+    try:
+        p = subprocess.run([exe] + [str(a) for a in args], cwd="/repo", env=env, stdout=subprocess.PIPE, stderr=subprocess.STDOUT,
+                           text=True, timeout=run_timeout)
+        out = p.stdout
+    except subprocess.TimeoutExpired as e:
+        out = (e.stdout.decode() if isinstance(e.stdout, bytes) else (e.stdout or "")) + "\n[the example did not finish within %d s]" % run_timeout
+    return out, re.search(r"Done\. states=(\d+), unique=(\d+)", out)
+
+
+def counts_of(m):
+    return (int(m.group(1)), int(m.group(2))) if m else (-1, -1)
+
+
 def example_2pc(res, sizes=(3,), sym_sizes=()):
     """Third-party oracle: Lamport's TwoPhase spec (TLC) vs the shipped examples/2pc.rs run by the real checkers."""
     import subprocess, re
@@ -598,16 +622,11 @@ def example_2pc(res, sizes=(3,), sym_sizes=()):
             r2 = run_tlc("MCTwoPhase.tla", "cfg/TwoPhase_%d_sym.cfg" % n, workers=1, timeout=1800, name="twophase-sym-%d" % n)
             res.add_tlc(r2, "TwoPhase[%d RMs, SYMMETRY]" % n)
             orbits = r2["distinct"]
-        env = dict(os.environ, CARGO_NET_OFFLINE="true")
-        p = subprocess.run(["cargo", "run", "--offline", "--release", "--example", "2pc", "--", "check-sym" if sym else "check", str(n)],
-                           cwd="/repo", env=env, stdout=subprocess.PIPE, stderr=subprocess.STDOUT, text=True, timeout=1800)
-        m = re.search(r"Done\. states=(\d+), unique=(\d+)", p.stdout)
-        if not m:
-            raise ToolError("examples/2pc did not report a result:\n" + p.stdout[-1500:])
-        recs.append(dict(n=n, symmetry=sym, states=int(m.group(1)), unique=int(m.group(2)), tlc_distinct=distinct, tlc_orbits=orbits,
-                         found_commit='Discovered "commit agreement" example' in p.stdout,
-                         found_abort='Discovered "abort agreement" example' in p.stdout,
-                         found_inconsistent='Discovered "consistent"' in p.stdout))
+        out_, m = run_example("2pc", ["check-sym" if sym else "check", n], run_timeout=1800)
+        recs.append(dict(n=n, symmetry=sym, states=counts_of(m)[0], unique=counts_of(m)[1], tlc_distinct=distinct, tlc_orbits=orbits,
+                         found_commit='Discovered "commit agreement" example' in out_,
+                         found_abort='Discovered "abort agreement" example' in out_,
+                         found_inconsistent='Discovered "consistent"' in out_, output_tail=out_[-600:]))
     rp, op = os.path.join(wd, "ex.ndjson"), os.path.join(wd, "ex.json")
     write_ndjson(rp, recs)
     r = run_tlc("JudgeExamples.tla", "cfg/empty.cfg", env=dict(RECS=rp, OUT=op), timeout=300, name="jex")
@@ -730,14 +749,9 @@ def example_single_copy(res, clients=(2,)):
         res.add_tlc(r, "SingleCopy[1 server, %d clients]" % c)
         if not r["ok"]:
             raise ToolError("SingleCopy.tla: %s violated on the SPEC" % r["violated"])
-        env = dict(os.environ, CARGO_NET_OFFLINE="true")
-        p = subprocess.run(["cargo", "run", "--offline", "--release", "--example", "single-copy-register", "--", "check", str(c), "unordered_nonduplicating"],
-                           cwd="/repo", env=env, stdout=subprocess.PIPE, stderr=subprocess.STDOUT, text=True, timeout=3000)
-        m = re.search(r"Done\. states=(\d+), unique=(\d+)", p.stdout)
-        if not m:
-            raise ToolError("examples/single-copy-register did not report a result:\n" + p.stdout[-1500:])
-        recs.append(dict(n=c, symmetry=False, states=int(m.group(1)), unique=int(m.group(2)), tlc_distinct=r["distinct"], tlc_orbits=0,
-                         found_commit=True, found_abort=True, found_inconsistent='Discovered "linearizable"' in p.stdout))
+        out_, m = run_example("single-copy-register", ["check", c, "unordered_nonduplicating"], run_timeout=1800)
+        recs.append(dict(n=c, symmetry=False, states=counts_of(m)[0], unique=counts_of(m)[1], tlc_distinct=r["distinct"], tlc_orbits=0,
+                         found_commit=True, found_abort=True, found_inconsistent='Discovered "linearizable"' in out_, output_tail=out_[-600:]))
     r2 = run_tlc("SingleCopy.tla", "cfg/SingleCopy_2_2.cfg", workers=4, timeout=1200, name="singlecopy-2-2")
     if r2["violated"] != "Linearizable":
         raise ToolError("SingleCopy.tla with two servers should violate Linearizable, got %s" % r2["violated"])
@@ -769,20 +783,26 @@ def example_abd(res):
     for r in (r31, r22):
         if not r["ok"]:
             raise ToolError("Abd.tla: %s violated on the SPEC" % r["violated"])
-    p = subprocess.run(["cargo", "run", "--offline", "--release", "--example", "linearizable-register", "--", "check", "1", "unordered_nonduplicating"],
-                       cwd="/repo", env=env, stdout=subprocess.PIPE, stderr=subprocess.STDOUT, text=True, timeout=3000)
-    m = re.search(r"Done\. states=(\d+), unique=(\d+)", p.stdout)
-    if not m:
-        raise ToolError("examples/linearizable-register did not report a result:\n" + p.stdout[-1500:])
-    recs = [dict(n=1, symmetry=False, states=int(m.group(1)), unique=int(m.group(2)), tlc_distinct=r31["distinct"], tlc_orbits=0,
-                 found_commit=True, found_abort='Discovered "value chosen"' in p.stdout, found_inconsistent='Discovered "linearizable"' in p.stdout)]
-    t = subprocess.run(["cargo", "test", "--offline", "--release", "--example", "linearizable-register"],
-                       cwd="/repo", env=env, stdout=subprocess.PIPE, stderr=subprocess.STDOUT, text=True, timeout=3000)
+    out_, m = run_example("linearizable-register", ["check", 1, "unordered_nonduplicating"], run_timeout=1800)
+    recs = [dict(n=1, symmetry=False, states=counts_of(m)[0], unique=counts_of(m)[1], tlc_distinct=r31["distinct"], tlc_orbits=0,
+                 found_commit=True, found_abort='Discovered "value chosen"' in out_, found_inconsistent='Discovered "linearizable"' in out_,
+                 output_tail=out_[-600:])]
+    bt = subprocess.run(["cargo", "test", "--offline", "--release", "--example", "linearizable-register", "--no-run"],
+                        cwd="/repo", env=env, stdout=subprocess.PIPE, stderr=subprocess.STDOUT, text=True, timeout=3000)
+    if bt.returncode != 0:
+        raise ToolError("the tests of examples/linearizable-register do not build:\n" + bt.stdout[-1500:])
+    try:
+        t = subprocess.run(["cargo", "test", "--offline", "--release", "--example", "linearizable-register"],
+                           cwd="/repo", env=env, stdout=subprocess.PIPE, stderr=subprocess.STDOUT, text=True, timeout=1800)
+        tout = t.stdout
+    except subprocess.TimeoutExpired as e:
+        tout = "[the example's tests did not finish]"
+    class _T:
+        stdout = tout
+    t = _T()
     mt = re.search(r"test result: (\w+)\. (\d+) passed; (\d+) failed", t.stdout)
-    if not mt:
-        raise ToolError("the tests of examples/linearizable-register did not run:\n" + t.stdout[-1500:])
     # the example's own tests assert unique_state_count() == 544 for 2 servers / 2 clients (BFS and DFS)
-    own_ok = mt.group(1) == "ok" and int(mt.group(2)) >= 1 and "can_model_linearizable_register ... ok" in t.stdout
+    own_ok = bool(mt) and mt.group(1) == "ok" and int(mt.group(2)) >= 1 and "can_model_linearizable_register ... ok" in t.stdout
     recs.append(dict(n=2, symmetry=False, states=544 if own_ok else 0, unique=544 if own_ok else 0, tlc_distinct=r22["distinct"], tlc_orbits=0,
                      found_commit=True, found_abort=True, found_inconsistent=not own_ok))
     rp, op = os.path.join(wd, "ex.ndjson"), os.path.join(wd, "ex.json")
@@ -811,14 +831,10 @@ def example_paxos(res, clients=(1, 2, 3)):
         res.add_tlc(r, "Paxos[3 servers, %d clients]" % c)
         if not r["ok"]:
             raise ToolError("Paxos.tla: %s violated on the SPEC" % r["violated"])
-        p = subprocess.run(["cargo", "run", "--offline", "--release", "--example", "paxos", "--", "check", str(c), "unordered_nonduplicating"],
-                           cwd="/repo", env=env, stdout=subprocess.PIPE, stderr=subprocess.STDOUT, text=True, timeout=3000)
-        m = re.search(r"Done\. states=(\d+), unique=(\d+)", p.stdout)
-        if not m:
-            raise ToolError("examples/paxos did not report a result:\n" + p.stdout[-1500:])
-        recs.append(dict(n=c, symmetry=False, states=int(m.group(1)), unique=int(m.group(2)), tlc_distinct=r["distinct"], tlc_generated=r["generated"],
-                         tlc_orbits=0, found_commit=True, found_abort='Discovered "value chosen"' in p.stdout,
-                         found_inconsistent='Discovered "linearizable"' in p.stdout))
+        out_, m = run_example("paxos", ["check", c, "unordered_nonduplicating"], run_timeout=900 if c < 3 else 1800)
+        recs.append(dict(n=c, symmetry=False, states=counts_of(m)[0], unique=counts_of(m)[1], tlc_distinct=r["distinct"], tlc_generated=r["generated"],
+                         tlc_orbits=0, found_commit=True, found_abort='Discovered "value chosen"' in out_,
+                         found_inconsistent='Discovered "linearizable"' in out_, output_tail=out_[-600:]))
     rp, op = os.path.join(wd, "ex.ndjson"), os.path.join(wd, "ex.json")
     write_ndjson(rp, recs)
     run_tlc("JudgeExamples.tla", "cfg/empty.cfg", env=dict(RECS=rp, OUT=op), timeout=300, name="jexpaxos")
@@ -847,14 +863,10 @@ def example_increment_lock(res, ns=(3, 4)):
         if not (a["ok"] and b["ok"]):
             raise ToolError("IncrementLock.tla: invariant violated on the SPEC")
         for sub, sym in (("check", False), ("check-sym", True)):
-            p = subprocess.run(["cargo", "run", "--offline", "--release", "--example", "increment_lock", "--", sub, str(n)],
-                               cwd="/repo", env=env, stdout=subprocess.PIPE, stderr=subprocess.STDOUT, text=True, timeout=3000)
-            m = re.search(r"Done\. states=(\d+), unique=(\d+)", p.stdout)
-            if not m:
-                raise ToolError("examples/increment_lock did not report a result:\n" + p.stdout[-1500:])
-            recs.append(dict(n=n, symmetry=sym, canonical=True, states=int(m.group(1)), unique=int(m.group(2)),
+            out_, m = run_example("increment_lock", [sub, n], run_timeout=600)
+            recs.append(dict(n=n, symmetry=sym, canonical=True, states=counts_of(m)[0], unique=counts_of(m)[1],
                              tlc_distinct=a["distinct"], tlc_orbits=b["distinct"], tlc_generated=(b if sym else a)["generated"],
-                             found_commit=True, found_abort=True, found_inconsistent="Discovered" in p.stdout))
+                             found_commit=True, found_abort=True, found_inconsistent="Discovered" in out_, output_tail=out_[-600:]))
     rp, op = os.path.join(wd, "ex.ndjson"), os.path.join(wd, "ex.json")
     write_ndjson(rp, recs)
     run_tlc("JudgeExamples.tla", "cfg/empty.cfg", env=dict(RECS=rp, OUT=op), timeout=300, name="jexinc")
